@@ -16,6 +16,16 @@ use std::sync::atomic::{AtomicU64, Ordering};
 use std::sync::{Arc, Mutex};
 use std::time::{Duration, Instant};
 
+/// user+system CPU time of this process in milliseconds (Linux: /proc/self/stat fields 14 and 15, USER_HZ = 100)
+fn process_cpu_ms() -> Option<u64> {
+    let st = std::fs::read_to_string("/proc/self/stat").ok()?;
+    let rest = &st[st.rfind(')')? + 1..];
+    let f: Vec<&str> = rest.split_whitespace().collect();
+    let ut: u64 = f.get(11)?.parse().ok()?;
+    let stt: u64 = f.get(12)?.parse().ok()?;
+    Some((ut + stt) * 10)
+}
+
 fn main() {
     if std::env::var_os("GV_VERBOSE").is_none() {
         panic::set_hook(Box::new(|_| {}));
@@ -27,15 +37,30 @@ fn main() {
     let epoch = Instant::now();
     let started_at = Arc::new(AtomicU64::new(0)); // millis since epoch when the current case started
     {
-        let (out, started, started_at) = (out.clone(), started.clone(), started_at.clone());
+        // The watchdog measures the CPU time the process has consumed while one case is current, not wall-clock
+        // time: a case that loops forever burns CPU, whereas a process that is starved on a loaded machine or
+        // blocked writing its results does not, and must not be reported as hanging.
+        let (out, started) = (out.clone(), started.clone());
+        let _ = &started_at;
         std::thread::spawn(move || {
             let mut last_seen = 0u64;
+            let mut cpu_at_first_sight = process_cpu_ms();
+            let mut wall_at_first_sight = Instant::now();
             loop {
                 std::thread::sleep(Duration::from_millis(250));
                 let n = started.load(Ordering::SeqCst);
-                let t0 = started_at.load(Ordering::SeqCst);
-                let now = epoch.elapsed().as_millis() as u64;
-                if n > 0 && n == last_seen && now.saturating_sub(t0) > case_timeout * 1000 {
+                if n == 0 || n != last_seen {
+                    last_seen = n;
+                    cpu_at_first_sight = process_cpu_ms();
+                    wall_at_first_sight = Instant::now();
+                    continue;
+                }
+                let stuck = match (process_cpu_ms(), cpu_at_first_sight) {
+                    (Some(now), Some(t0)) => now.saturating_sub(t0) > case_timeout * 1000,
+                    // no /proc: fall back to a generous wall-clock limit
+                    _ => wall_at_first_sight.elapsed().as_secs() > case_timeout * 30,
+                };
+                if stuck {
                     // the current case is stuck: report it and give up on this process
                     let mut buf = out.lock().unwrap_or_else(|e| e.into_inner());
                     buf.extend_from_slice(b"hang\n");
@@ -45,7 +70,6 @@ fn main() {
                     let _ = so.flush();
                     std::process::exit(3);
                 }
-                last_seen = n;
             }
         });
     }
